@@ -155,10 +155,11 @@ PROPS["C19"] = dict(
     jobs=[dict(harness=BROKER_H, entries=r"^H_C19_|^H_C14_two_events$", params=dict(quick={}, thorough={}), shards=dict(quick=4, thorough=8)),
           dict(pkg="./sinks/writer", harness=["sinks/writer.go", "sinks/writer_c19.go"], entries=r"^H_C19_", params=dict(quick=dict(F=2), thorough=dict(F=2))),
           dict(pkg="./filters/gated", harness=["gated/gated.go", "gated/c19.go"], entries=r"^H_C19_", params=dict(quick={}, thorough={}), shards=dict(quick=4, thorough=8)),
-          dict(pkg="./formatter_filters/cloudevents", harness=["cloudevents/cloudevents.go", "cloudevents/c19.go"], entries=r"^H_C19_|^H_C18_two_events$", params=dict(quick=dict(T=1), thorough=dict(T=1)))],
-    must_reach=["C19.core.end", "C19.table.end", "C19.writer.end", "C19.gated.end", "C19.cloudevents.end", "C19.filesink.end"],
+          dict(pkg="./formatter_filters/cloudevents", harness=["cloudevents/cloudevents.go", "cloudevents/c19.go"], entries=r"^H_C19_|^H_C18_two_events$", params=dict(quick=dict(T=1), thorough=dict(T=1))),
+          dict(dir="/repo/filters/encrypt", harness=["encrypt/common.go", "encrypt/helpers_sym.go", "encrypt/helpers_native.go", "encrypt/c16.go", "encrypt/c09.go", "encrypt/c19.go"], entries=r"^H_C19_", params=dict(quick={}, thorough={}), shards=dict(quick=4, thorough=8))],
+    must_reach=["C19.core.end", "C19.table.end", "C19.writer.end", "C19.gated.end", "C19.cloudevents.end", "C19.filesink.end", "C19.encrypt.end"],
     bounds=dict(quick="pairwise (a data race is a pairwise notion); one shared Event; node instances shared or not", thorough="same"),
-    assumptions=["public configuration fields that the library never writes are read-only by contract", "FileSink, ChannelSink and encrypt.Filter pairs: see DESIGN (not yet covered)"],
+    assumptions=["public configuration fields that the library never writes are read-only by contract", "ChannelSink pairs are channel operations only (no shared memory)"],
     trusted_base=COMMON_TRUST,
 )
 FS_NOTE = "FileSink.Process / Reopen / reopen / open / rotate / pruneFiles / fileNamePattern / newFileName executed symbolically over a ghost file system (contracts for os.OpenFile incl. its flag word, Write, Close, Stat, Rename, Remove, Chmod, MkdirAll, filepath.Join/Glob, sort.Strings; file names parsed back into literal+timestamp structure so glob matching and order are decided structurally / as integer comparisons) from an arbitrary sink state (<=R rotated files with increasing symbolic timestamps, foreign files, active file open or not, symbolic BytesWritten/LastCreated/MaxBytes/MaxFiles/MaxDuration/Mode/TimestampOnlyOnRotate, symbolic clock). "
